@@ -156,8 +156,10 @@ def _build_data(env, kind, univariate, spec, case):
         for v, f in nans:
             if f < len(use) and v in visits:
                 sub.loc[visits.index(v), use[f]] = np.nan
+        if kind == "joint" and case.get("blank") is not None and spec[case["blank"]][1] == nid:
+            sub[use] = np.nan          # followed for the event only
         # keep at least one observed value per subject
-        if sub[use].isna().all().all():
+        elif sub[use].isna().all().all():
             sub.loc[0, use[0]] = float(df[df.ID == s].reset_index(drop=True).iloc[visits[0]][use[0]])
         sub["ID"] = nid
         parts.append(sub)
@@ -1301,6 +1303,10 @@ def gen_case(env, rng, algo, model_name):
                                      {"method": "Powell", "options": {"maxiter": 2, "xtol": 1e-2, "ftol": 1e-2}}])
         if case["custom"]:
             case["use_jacobian"] = False
+        if kind == "joint" and len(cohort) >= 2 and rng.random() < 0.6:
+            # a subject followed for the event only: visits but no measured value at all (the joint reader keeps those rows); its
+            # optimum is driven by the event term, not by the prior alone
+            case["blank"] = rng.randrange(len(cohort))
         return case
     n_iter = rng.choice([1, 2, 3, 5, 8, 12, 20, 30])
     case["n_iter"] = n_iter
